@@ -99,7 +99,7 @@ class Engine:
         s.stats = {'paths': 0, 'forks': 0, 'solver_calls': 0, 'solver_time': 0.0, 'instrs': 0}
         s.nsym = 0
         s.violations = []
-        s.fn_seen = set(); s.models_used = set(); s.fork_sites = {}; s.max_fork_width = 4096; s.undef_syms = set()
+        s.max_depth = 600; s.fn_seen = set(); s.models_used = set(); s.fork_sites = {}; s.max_fork_width = 4096; s.undef_syms = set()
         s.max_steps = 2000000; s.max_paths = 200000; s.deadline = time.time() + 3600; s.sample = None; s.reached = set()
         s.races = {}; s.racy_points = set()
         s.all_syms = []
@@ -236,7 +236,7 @@ class Engine:
         if s.feasible(st, v != c):
             raise ForkOn(v == c)
         return c
-    SYM_LOAD_MAX = 4096; SYM_STORE_MAX = 96
+    SYM_LOAD_MAX = 4096; SYM_STORE_MAX = 96; SYM_FORK_MAX = 64
     def resolve_sym(s, st, addr, n, what):
         """symbolic address: single-object resolution. The access must be inside ONE object for every model of the path
         condition, otherwise an out-of-bounds access is feasible -> violation (with the witness added to the path)."""
@@ -275,7 +275,10 @@ class Engine:
         if is_sym(addr): addr = s.try_pin(st, addr)
         if is_sym(addr):
             base, size, kind, off = s.resolve_sym(st, addr, n, 'read')
-            if size > s.SYM_LOAD_MAX: addr = s.concretize(st, addr)
+            if size > s.SYM_LOAD_MAX or (kind != 'const' and size <= s.SYM_FORK_MAX):
+                # big objects, and small mutable buffers (a parser cursor over a short packet): one path per concrete offset keeps every
+                # later term small; constant lookup tables keep the if-then-else encoding
+                addr = s.concretize(st, addr)
             else:
                 stride = 1
                 if n > 1 and size % n == 0 and not s.feasible(st, z3.URem(off, n) != 0): stride = n
@@ -640,6 +643,8 @@ class Engine:
             st.last_ret = r
             return
         s.fn_seen.add(f.name)
+        if len(st.stack) >= s.max_depth:
+            raise Violation('call depth exceeds %d frames (unbounded recursion?) in %s' % (s.max_depth, f.name))
         fr = Frame(f); fr.ret_to = res_reg
         for (t, nm, info), a in zip(f.params, args):
             if nm: fr.regs[nm] = a
@@ -1303,6 +1308,7 @@ def m_end_catch(e, st, args):
 def m_rethrow(e, st, args):
     st.exc = st.caught[-1]; return None
 def m_rb_insert(e, st, args):
+    args = [e.concretize(st, a) if is_sym(a) else a for a in args]      # iterator values may be an if-then-else of node addresses
     left, x, p, h = args; I = TInt(64)
     e.store(st, x + 8, I, p); e.store(st, x + 16, I, 0); e.store(st, x + 24, I, 0); e.store(st, x, TInt(32), 1)   # every real node black: only the header is red (decrement relies on it)
     if left & 1:
@@ -1314,7 +1320,7 @@ def m_rb_insert(e, st, args):
         if p == e.load(st, h + 24, I): e.store(st, h + 24, I, x)
     return None
 def m_rb_inc(e, st, args):
-    x = args[0]; I = TInt(64); L = lambda a: e.load(st, a, I)
+    x = e.concretize(st, args[0]) if is_sym(args[0]) else args[0]; I = TInt(64); L = lambda a: e.load(st, a, I)
     if L(x + 24):
         x = L(x + 24)
         while L(x + 16): x = L(x + 16)
@@ -1324,7 +1330,7 @@ def m_rb_inc(e, st, args):
     if L(x + 24) != y: x = y
     return x
 def m_rb_dec(e, st, args):
-    x = args[0]; I = TInt(64); L = lambda a: e.load(st, a, I)
+    x = e.concretize(st, args[0]) if is_sym(args[0]) else args[0]; I = TInt(64); L = lambda a: e.load(st, a, I)
     if e.load(st, x, TInt(32)) == 0 and L(L(x + 8) + 8) == x: return L(x + 24)
     if L(x + 16):
         y = L(x + 16)
@@ -1336,6 +1342,7 @@ def m_rb_dec(e, st, args):
 
 def m_rb_erase(e, st, args):
     """_Rb_tree_rebalance_for_erase(z, header): plain (unbalanced) BST deletion; returns z. header: +8 root, +16 leftmost, +24 rightmost."""
+    args = [e.concretize(st, a) if is_sym(a) else a for a in args]
     z, h = args; I = TInt(64)
     L = lambda a: e.load(st, a, I)
     def S(a, v): e.store(st, a, I, v)
@@ -1709,12 +1716,12 @@ def main():
     ap.add_argument('--max-paths', type=int, default=200000)
     ap.add_argument('--max-steps', type=int, default=2000000)
     ap.add_argument('--budget', type=float, default=3600.0)
-    ap.add_argument('--stop-first', action='store_true')
+    ap.add_argument('--stop-first', action='store_true'); ap.add_argument('--max-depth', type=int, default=600)
     a = ap.parse_args()
     t0 = time.time()
     m = ir2c.parse_module(open(a.ll).read())
     def mk():
-        e = Engine(m); e.max_preempt = a.preempt; e.max_timeouts = a.timeouts; e.max_paths = a.max_paths; e.max_steps = a.max_steps
+        e = Engine(m); e.max_preempt = a.preempt; e.max_timeouts = a.timeouts; e.max_paths = a.max_paths; e.max_steps = a.max_steps; e.max_depth = a.max_depth
         e.deadline = t0 + a.budget; return e
     e = mk()
     out = {'entry': a.entry, 'status': 'ok', 'passes': 1}
